@@ -1,6 +1,10 @@
 #![no_main]
 use libfuzzer_sys::fuzz_target;
 
+// counting allocator: the memory oracle inside the target reads it
+#[global_allocator]
+static ALLOC: pkverif::alloc::Counting = pkverif::alloc::Counting;
+
 fuzz_target!(|data: &[u8]| {
     pkverif::fuzzapi::ctap_cbor(data);
 });
